@@ -681,6 +681,31 @@ def _uses_ptr(ev, pn):
     return False
 
 
+
+def run_v11(chk, P):
+    """V11: a synchronous burst helper named for one direction validates its jobs with that direction: is_job_invalid() applies direction-
+    specific rules (which key pointer must be non-NULL, the 16-bit length limit of multi-buffer CBC encrypt), so a decrypt helper that
+    validates as encrypt rejects valid jobs and lets a NULL dec_keys through to the kernel"""
+    from . import validation
+    r = chk.rule('V11', 'a burst helper named ..._enc / ..._dec validates its jobs with IMB_DIR_ENCRYPT / IMB_DIR_DECRYPT respectively', floor=20)
+    ENC, DEC = P.enum('IMB_DIR_ENCRYPT'), P.enum('IMB_DIR_DECRYPT')
+    for tu in P.variant_tus():
+        vt = tu.split('__')[0]
+        for f in P.funcs(tu):
+            toks = set(re.split(r'_+', f.name))
+            want = ENC if toks & {'enc', 'encrypt'} else DEC if toks & {'dec', 'decrypt'} else None
+            if want is None or 'burst' not in f.name:
+                continue
+            for c in validation.validator_calls(P, tu, f):
+                if c.get('fn') != 'is_job_invalid' or len(c.get('a', [])) < 5:
+                    continue
+                d = cf.evalc(c['a'][4])
+                if d is None:
+                    continue
+                r.check(d == want, '%s:%s' % (vt, f.name), f.loc, '%s validates its jobs with direction %s' % (
+                    f.name, 'IMB_DIR_ENCRYPT' if d == ENC else 'IMB_DIR_DECRYPT' if d == DEC else d))
+
+
 def run(chk):
     P = cf.Program()
     chk.explanation = ('Guard catalogue of is_job_invalid / is_job_invalid_light and of every other C function with reject guards '
@@ -704,6 +729,7 @@ def run(chk):
     shared.rule_errno_target(chk, P, 'V8')
     run_v9(chk, P)
     run_v10(chk, P)
+    run_v11(chk, P)
 
 
 if __name__ == '__main__':
